@@ -429,7 +429,11 @@ func TestGeneratedLexer(t *testing.T) {
 			rep.fail("C06+C17/valid-fixture-generates-and-compiles", name, g.diag+g.buildErr)
 			return
 		}
-		inputs := allInputs(spec.alpha, spec.maxIn)
+		maxIn := spec.maxIn
+		if thorough {
+			maxIn += 2 // two more symbols per input in the thorough tier
+		}
+		inputs := allInputs(spec.alpha, maxIn)
 		var js []any
 		for _, in := range inputs {
 			js = append(js, in)
@@ -493,7 +497,7 @@ func TestGeneratedLexer(t *testing.T) {
 		}
 		rep.sample(name)
 	})
-	rep.done(t, true, fmt.Sprintf("%d fixture specifications (modes, every action kind and order, accumulation, pop on empty stack, multi-byte and invalid UTF-8); all inputs over 2-4 symbols up to length 4-6, through the real generated code and loxlex/simplelexer", len(fx)))
+	rep.done(t, true, fmt.Sprintf("%d fixture specifications (modes, every action kind and order, accumulation, pop on empty stack, multi-byte and invalid UTF-8); all inputs over 2-4 symbols up to length 4-6 (thorough: 6-8), through the real generated code and loxlex/simplelexer", len(fx)))
 }
 
 func at(xs []string, i int) string {
